@@ -574,22 +574,12 @@ Proof. unfold create_ttl, is_event_key, events_prefix. destruct (has_prefix (pre
 Lemma c17_oracle_sound_ttl_choice prefix ettl k ttls :
   c17_check (KTtlChoice prefix ettl k ttls) = true -> c17_oracle (KTtlChoice prefix ettl k ttls) = None.
 Proof.
-  cbn [c17_check c17_oracle]. intros H. apply andb_true_iff in H as [Hall Hne].
-  destruct (forallb (N.eqb 0) ttls) eqn:Ez; [reflexivity|].
-  destruct (is_event_key prefix k) eqn:Ee; [reflexivity|]. exfalso.
-  destruct ttls as [|t ts]; [discriminate|]. cbn [forallb] in Hall, Ez.
-  apply andb_true_iff in Hall as [Ht Hts]. apply N.eqb_eq in Ht.
-  assert (Hz : create_ttl ettl prefix k = 0).
-  { destruct (N.eq_dec (create_ttl ettl prefix k) 0) as [E|E]; [exact E|]. apply create_ttl_event in E. congruence. }
-  rewrite Hz in *. subst t. cbn [N.eqb andb] in Ez.
-  assert (forallb (N.eqb 0) ts = true); [|congruence].
-  clear -Hts. induction ts as [|x ts IH]; [reflexivity|]. cbn [forallb] in *. apply andb_true_iff in Hts as [H1 H2].
-  rewrite H1. exact (IH H2).
+  cbn [c17_check c17_oracle]. intros H. apply andb_true_iff in H as [H _].
+  assert (Hall : forallb (fun t => (t =? 0) || (is_event_key prefix k && (ettl <=? t))) ttls = true); [|rewrite Hall; reflexivity].
+  apply forallb_forall. intros t Ht. rewrite forallb_forall in H. specialize (H t Ht). apply N.eqb_eq in H. subst t.
+  unfold create_ttl, is_event_key, events_prefix. destruct (has_prefix (prefix ++ events_sub) k); [|reflexivity].
+  cbn [andb]. rewrite N.leb_refl. apply orb_true_r.
 Qed.
-
-(* ---------- C17_whole on the engine-TTL path (Badger as modelled): the creator writes the index record and the version
-   record of a creation with the SAME ttl in each of its batches (put-if-absent, re-create after Get, CAS over a
-   tombstoned index), so they expire together ---------- *)
 
 Lemma c17_oracle_sound_ttl_write prefix ettl op lease k ttls :
   c17_check (KTtlWrite prefix ettl op lease k ttls) = true -> c17_oracle (KTtlWrite prefix ettl op lease k ttls) = None.
